@@ -99,3 +99,27 @@ package util
 //@ loop 1
 //@   invariant forall(k, 0, iter, dest[k] == at(chars, from + k))
 //@   invariant init(dest, 0, iter)
+
+// trimSpec(c): length after trimming leading and trailing white space, saturated at 65535
+//@ spec func trimSpec(c *Chars) int = leadws(c, 0) >= clen(c) ? 0 : (clen(c) - trailws(c, clen(c)) - leadws(c, 0) > 65535 ? 65535 : clen(c) - trailws(c, clen(c)) - leadws(c, 0))
+// the memoised trim length, when present, is the right one
+//@ spec func trimMemoOK(c *Chars) bool = c.trimLengthKnown ? c.trimLength == trimSpec(c) : c.trimLength == 0
+
+// if everything from clen-d on is white space, leadws runs to the end
+//@ lemma leadws_all(c *Chars, d int) induction d
+//@ requires 0 <= d && d <= clen(c) && forall(k, clen(c) - d, clen(c), isSpace(at(c, k)))
+//@ ensures leadws(c, clen(c) - d) == clen(c)
+
+//@ func Chars.TrimLength
+//@ requires chars != nil && trimMemoOK(chars)
+//@ use leadws_all(chars, clen(chars))
+//@ modifies chars.trimLengthKnown, chars.trimLength
+//@ ensures result == trimSpec(chars) && trimMemoOK(chars) && chars.trimLengthKnown
+//@ loop 1
+//@   invariant len == clen(chars) && -1 <= i && i < len && forall(k, i + 1, len, isSpace(at(chars, k)))
+//@   invariant trailws(chars, len) == trailws(chars, i + 1) + (len - 1 - i)
+//@   decreases i + 1
+//@ loop 2
+//@   invariant 0 <= j && j <= len && forall(k, 0, j, isSpace(at(chars, k))) && leadws(chars, 0) == leadws(chars, j)
+//@   invariant 0 <= i && i < len && !isSpace(at(chars, i)) && trailws(chars, len) == len - 1 - i
+//@   decreases len - j
